@@ -188,6 +188,7 @@ class Sim:
         self.cmd_classes = []
         self.killnode_done = False
         self.poll_streak = 0
+        self.hold_advance = 0.0
         self.time_jumps = 0
         self.parks = 0
         self.eg = {"phase": 1, "k": scen.get("endgame_k") or self.rng.randint(1, 10), "count": 0} if scen.get("endgame") else None
@@ -1197,10 +1198,15 @@ class Sim:
         self.pending = {p: t_ for p, t_ in self.pending.items() if not (isinstance(t_, tuple) and not os.path.exists(f"/proc/{p}"))}
 
     # ------------------------------------------------------------------ choice
-    def holds_lock(self, a):
-        """Does this actor hold one of the file locks?  (A process is never parked while it holds a lock: that would only
-        manufacture lock timeouts, i.e. a sleep inside one coarse lock.)"""
-        for lf in [os.path.join(self.out, "cluster_config.json.lock"), os.path.join(self.out, "processed_results.csv.lock")] + glob.glob(os.path.join(self.out, "results", "*.lock")):
+    def holds_lock(self, a, cluster_only=False):
+        """Does this actor hold one of the file locks?  A process is never delayed while it holds the cluster lock (everything
+        is serialized by it: a sleep inside one coarse lock adds nothing but timeouts).  Inside the consolidated-results lock a
+        bounded delay is allowed (cluster_only=True): runners append under the per-node locks only, so there are interleavings
+        to explore, and <= 1000 steps of 0.05-s lock polls stay far below the 300-s lock timeout."""
+        files = [os.path.join(self.out, "cluster_config.json.lock")]
+        if not cluster_only:
+            files += [os.path.join(self.out, "processed_results.csv.lock")] + glob.glob(os.path.join(self.out, "results", "*.lock"))
+        for lf in files:
             try:
                 with open(lf) as f:
                     first = f.readline().strip()
@@ -1279,9 +1285,9 @@ class Sim:
                     if a.parked_until > self.steps:
                         parked.append(a)
                         continue
-                    if a.parked_at != a.n and self.park_point(a.msg) and self.rng.random() < park_p and not self.holds_lock(a):
+                    if a.parked_at != a.n and self.park_point(a.msg) and self.rng.random() < park_p and not self.holds_lock(a, cluster_only=True):
                         a.parked_at = a.n
-                        a.parked_until = self.steps + self.rng.choice([30, 100, 300, 1000])
+                        a.parked_until = self.steps + (self.rng.choice([30, 100, 300, 1000]) if not self.holds_lock(a) else self.rng.choice([30, 100, 300]))
                         self.parks += 1
                         parked.append(a)
                         if self.scen.get("trace_ev"):
@@ -1340,8 +1346,17 @@ class Sim:
         while True:
             cands, sleepers = self.candidates()
             if cands and sleepers and pol.get("time_w") and self.rng.random() < pol["time_w"] * 0.2:
+                # A slow process: time passes although somebody could run.  While a live runnable actor holds a file lock
+                # only small steps are allowed and at most 60 virtual seconds per hold (the lock timeouts are 300 s), so that no
+                # lock timeout is manufactured but a node sleeping in its job poll can wake up inside another process's lock hold.
+                nxt = min(a.wake for a in sleepers)
                 if not self.lock_held_by_live_actor():
-                    self.vnow = min(a.wake for a in sleepers)
+                    self.hold_advance = 0.0
+                    self.vnow = nxt
+                    continue
+                if nxt - self.vnow <= 10.0 and self.hold_advance + (nxt - self.vnow) <= 60.0:
+                    self.hold_advance += nxt - self.vnow
+                    self.vnow = nxt
                     continue
             if self.eg and self.eg["phase"] == 1 and self.eg.get("held") and "submit" in self.top_rc and not any(c[1] == "start" for c in cands) and (
                 not any(c[1] == "actor" and c[2].msg["k"] != "jobrun" for c in cands) or self.steps - self.last_progress_step > 30
